@@ -41,7 +41,11 @@ Definition batch_of (es : list entry) : batch :=
 
 (** the client batches of a workload (maintenance and GC write-backs are not client writes) *)
 Definition client_batches (w : list step) : list batch :=
-  flat_map (fun s => match s with SB es _ _ => [batch_of es] | _ => [] end) w.
+  flat_map (fun s => match s with
+                     | SB es _ _ => [batch_of es]
+                     | SCB rs => map (fun q => batch_of (q_es q)) rs
+                     | _ => []
+                     end) w.
 
 (** * C10 *)
 Definition prefix_consistent (bs : list batch) (keys : list N) (reads : N -> obsv) : Prop :=
@@ -86,6 +90,7 @@ Definition entries_unsplit (es : list entry) : bool :=
 Definition no_split (w : list step) : bool :=
   forallb (fun s => match s with
                     | SB es _ _ => entries_unsplit es
+                    | SCB rs => forallb (fun q => entries_unsplit (q_es q)) rs
                     | SGc _ _ es _ _ => entries_unsplit es
                     | _ => true
                     end) w.
